@@ -11,6 +11,7 @@ import Gzx.GoMV
 import Gzx.Proofs.GoMTie
 import Gzx.Model.RS
 import Gzx.Proofs.Poly
+import Gzx.Proofs.Forney
 namespace Gzx.K04bTie
 open Gzx Gzx.GoM Gzx.GoVal Gzx.RS
 
@@ -184,6 +185,14 @@ theorem loop_list_inv (R : τ → σ) (Inv : τ → Prop) (body : Int → σ →
     | brk t' => rfl
     | ret r => rfl
     | panic f => rfl
+
+theorem loop_list_inv' (R : τ → σ) (Inv : τ → Prop) (g : Nat → Nat → τ → Ctl τ ρ) (l : List Nat) (a : Nat) (t : τ)
+    {body : Int → σ → Ctl σ ρ} {n : Nat} {i0 : Int} {s : σ}
+    (hs : s = R t) (hn : n = l.length) (hi : i0 = (a : Int)) (ht : Inv t)
+    (hinv : ∀ j (hj : j < l.length) t t', Inv t → g (a + j) l[j] t = .next t' → Inv t')
+    (hb : ∀ j (hj : j < l.length) t, Inv t → body ((a + j : Nat) : Int) (R t) = mapS R (g (a + j) l[j] t)) :
+    loop body 1 n i0 s = mapS R (iterL g a l t) := by
+  subst hs hn hi; exact loop_list_inv R Inv body g l a t ht hb hinv
 
 /-- `for i, x := range l` -/
 theorem forRange_list (R : τ → σ) (body : Int → Int → σ → Ctl σ ρ) (g : Nat → Nat → τ → Ctl τ ρ) :
@@ -963,6 +972,138 @@ theorem buildGenerator_error (F : GF.GF) : ∀ (d : Nat) (e : Fault), buildGener
         have hmk : mkPoly [1, ev] = .ok [1, ev] := by unfold mkPoly normalize; rfl
         simp only [hmk] at h
         exact multiply_error (buildGenerator_ne F d g hg) (by simp) h
+
+/-! ### Forney's formula (`findErrorMagnitudes`) on model states -/
+
+/-- the "plus one" of the source (`term | 1` for an even, `term & ^1` for an odd value) -/
+def tp1 (t : Nat) : Nat := if t &&& 1 = 0 then t ||| 1 else t - 1
+
+theorem tp1_eq_xor (t : Nat) : tp1 t = t ^^^ 1 := Proofs.Forney.termPlus1_eq t
+
+theorem iand_neg2 (t : Nat) (h : ¬ t &&& 1 = 0) : GoVal.iand (t : Int) (-2) = ((t - 1 : Nat) : Int) := by
+  have h1 : t % 2 = 1 := by rw [Nat.and_one_is_mod] at h; omega
+  unfold GoVal.iand
+  have e : (-(-2 : Int) - 1).toNat = 1 := by decide
+  have ha : (t : Int) ≥ 0 := by omega
+  have hb : ¬ ((-2 : Int) ≥ 0) := by decide
+  rw [if_pos ha, if_neg hb, Int.toNat_natCast, e, Nat.and_one_is_mod, h1]
+  show (t : Int) - ((1 : Nat) : Int) = _
+  omega
+
+/-- the source's two-branch form of "plus one", as a control value -/
+theorem tp1_ctl (t : Nat) (k : Int → Ctl σ ρ) :
+    (Ctl.thenC (σ' := Int) (if (GoVal.iand (t : Int) 1 == 0) = true then Ctl.next (GoVal.ior (t : Int) 1)
+      else Ctl.next (GoVal.iand (t : Int) (-2))) k) = k ((tp1 t : Nat) : Int) := by
+  unfold tp1
+  rw [show (1 : Int) = ((1 : Nat) : Int) from rfl, iand_natCast, natCast_beq_zero]
+  by_cases h : t &&& 1 = 0
+  · rw [if_pos (by rw [h]; rfl), if_pos h, ior_natCast]; rfl
+  · rw [if_neg (by rw [beq_iff_eq]; exact h), if_neg h]
+    have := iand_neg2 t h
+    rw [this]; rfl
+
+/-- one factor of the denominator: `den *= 1 + X_j·X_i⁻¹` for `j ≠ i` -/
+def denStep (F : GF.GF) (xiInv i : Nat) (j xj den : Nat) : Ctl Nat ρ :=
+  if i ≠ j then stepC (do let term ← F.mul xj xiInv; F.mul den (tp1 term)) else .next den
+
+theorem iterL_den (F : GF.GF) (xiInv i : Nat) : ∀ (rest : List Nat) (j den : Nat),
+    iterL (ρ := ρ) (denStep F xiInv i) j rest den = stepC (magDenominator F xiInv i rest j den) := by
+  intro rest
+  induction rest with
+  | nil => intro j den; rfl
+  | cons xj rest ih =>
+    intro j den
+    simp only [iterL, denStep, magDenominator]
+    by_cases hij : i ≠ j
+    · simp only [hij, ne_eq, not_false_eq_true, if_true, bind, Except.bind]
+      cases F.mul xj xiInv with
+      | error e => rfl
+      | ok term =>
+        simp only []
+        cases hm : F.mul den (tp1 term) with
+        | error e => simp only [tp1] at hm; simp only [hm]; rfl
+        | ok den' => simp only [tp1] at hm; simp only [hm, stepC_ok]; exact ih (j + 1) den'
+    · simp only [hij, if_false]; exact ih (j + 1) den
+
+theorem magDenominator_error {F : GF.GF} {xiInv i : Nat} : ∀ (rest : List Nat) (j den : Nat) (e : Fault),
+    magDenominator F xiInv i rest j den = .error e → IsPanic e := by
+  intro rest
+  induction rest with
+  | nil => intro j den e h; simp only [magDenominator] at h; cases h
+  | cons xj rest ih =>
+    intro j den e h
+    simp only [magDenominator] at h
+    split at h
+    · simp only [bind, Except.bind] at h
+      cases h1 : F.mul xj xiInv with
+      | error e1 => simp only [h1] at h; cases h; exact mul_error h1
+      | ok term =>
+        simp only [h1] at h
+        cases h2 : F.mul den (if term &&& 1 = 0 then term ||| 1 else term - 1) with
+        | error e2 => simp only [h2] at h; cases h; exact mul_error h2
+        | ok den' => simp only [h2] at h; exact ih _ _ _ h
+    · exact ih _ _ _ h
+
+theorem evalLoop_error {F : GF.GF} {a : Nat} : ∀ (cs : List Nat) (r : Nat) (e : Fault), evalLoop F a cs r = .error e → IsPanic e := by
+  intro cs
+  induction cs with
+  | nil => intro r e h; simp only [evalLoop] at h; cases h
+  | cons c cs ih =>
+    intro r e h
+    simp only [evalLoop, bind, Except.bind] at h
+    cases h1 : F.mul a r with
+    | error e1 => simp only [h1] at h; cases h; exact mul_error h1
+    | ok m => simp only [h1] at h; exact ih _ _ h
+
+theorem evaluateAt_error {F : GF.GF} {p : Poly} {a : Nat} {e : Fault} (h : evaluateAt F p a = .error e) : IsPanic e := by
+  unfold evaluateAt at h
+  split at h
+  · unfold getCoefficient at h
+    split at h
+    · cases h; exact ⟨_, rfl⟩
+    · split at h
+      · cases h
+      · cases h; exact ⟨_, rfl⟩
+  · split at h
+    · cases h
+    · split at h
+      · cases h; exact ⟨_, rfl⟩
+      · exact evalLoop_error _ _ _ h
+
+/-- one magnitude written into the result slice -/
+def magStep (F : GF.GF) (omega locs : List Nat) (D : ρ) (i xi : Nat) (res : List Nat) : Ctl (List Nat) ρ :=
+  match errorMagnitude F omega locs i xi with
+  | .ok m => stepC (Bits.setWord res i m)
+  | .error e => failK (.ret D) Ctl.panic e
+
+theorem iterL_mag (F : GF.GF) (omega locs : List Nat) (D : ρ) : ∀ (rest pre : List Nat),
+    iterL (magStep F omega locs D) pre.length rest (pre ++ List.replicate rest.length 0) =
+      match magLoop F omega locs rest pre.length with
+      | .ok ms => .next (pre ++ ms)
+      | .error e => failK (.ret D) Ctl.panic e := by
+  intro rest
+  induction rest with
+  | nil => intro pre; simp [iterL, magLoop]
+  | cons xi rest ih =>
+    intro pre
+    simp only [iterL, magStep, magLoop, bind, Except.bind]
+    cases hm : errorMagnitude F omega locs pre.length xi with
+    | error e => cases e <;> rfl
+    | ok m =>
+      have hset : Bits.setWord (pre ++ List.replicate (xi :: rest).length 0) pre.length m =
+          .ok ((pre ++ [m]) ++ List.replicate rest.length 0) := by
+        unfold Bits.setWord
+        rw [if_pos (by simp)]
+        congr 1
+        rw [List.set_append_right _ _ (Nat.le_refl _), Nat.sub_self, List.length_cons, List.replicate_succ, List.set_cons_zero]
+        simp
+      simp only [hset, stepC_ok]
+      have := ih (pre ++ [m])
+      rw [List.length_append, List.length_singleton] at this
+      rw [this]
+      cases magLoop F omega locs rest (pre.length + 1) with
+      | error e => cases e <;> rfl
+      | ok ms => simp
 
 theorem while_map' (R : τ → σ) (f : τ → Ctl τ ρ) (t : τ) {body : σ → Ctl σ ρ} {s : σ} {n : Nat}
     (hs : s = R t) (hb : ∀ t, body (R t) = mapS R (f t)) :
